@@ -6,6 +6,9 @@
 package main
 
 import (
+	"math/rand/v2"
+	"strings"
+
 	"verifharness/hx"
 	"verifharness/hxpat"
 
@@ -30,10 +33,65 @@ func searchObserve(p, src string) searchRow {
 	strs := hxpat.Strings(p, 3, 4, false)
 	fstrs := hxpat.Strings(p, 3, 4, true)
 	row := searchRow{P: hx.Hex(p), Strs: hx.HexList(strs), FStrs: hx.HexList(fstrs), Src: src, Cfg: map[string]hxpat.Res{}}
-	row.Cfg["ext"] = hxpat.ViaMatcher(p, ES|EXT, strs)        // bash: [[ s == p ]] / case with extglob
-	row.Cfg["noext"] = hxpat.ViaRegexp(p, ES, strs)            // bash: case with shopt -u extglob
-	row.Cfg["fold"] = hxpat.ViaMatcher(p, ES|EXT|NC, fstrs)   // bash: nocasematch
+	row.Cfg["ext"] = hxpat.ViaMatcher(p, ES|EXT, strs)      // bash: [[ s == p ]] / case with extglob
+	row.Cfg["noext"] = hxpat.ViaRegexp(p, ES, strs)         // bash: case with shopt -u extglob
+	row.Cfg["fold"] = hxpat.ViaMatcher(p, ES|EXT|NC, fstrs) // bash: nocasematch
 	return row
+}
+
+type codeRow struct {
+	P     []int         `json:"p"`
+	M     int           `json:"m"`
+	Obs   hxpat.CodeObs `json:"obs"`
+	Alpha []int         `json:"alpha"`          // test strings = all strings of length <= 3 over alpha (hxpat.StringsOver order)
+	Bits  string        `json:"bits"`           // regexp.MatchString per string ("" unless obs.k == ok)
+	MObs  string        `json:"mobs,omitempty"` // ExtendedPatternMatcher: bits | "E" error | "P" panic ("" = not observed)
+	Src   string        `json:"src"`
+}
+
+const (
+	FN  = pattern.Filenames
+	SH  = pattern.Shortest
+	NGS = pattern.NoGlobStar
+	GLD = pattern.GlobLeadingDot
+)
+
+var codeModes = []pattern.Mode{0, ES, ES | EXT, ES | FN, ES | FN | NGS, ES | FN | GLD, ES | NC, ES | EXT | NC, FN, EXT, SH, SH | FN | ES | EXT}
+
+func codeObserve(p string, m pattern.Mode, src string) codeRow {
+	var extra []rune
+	if m&FN != 0 {
+		extra = []rune{'/', '.'}
+	}
+	alpha := hxpat.Alpha(p, 4, m&NC != 0, extra...)
+	strs := hxpat.StringsOver(alpha, 3)
+	row := codeRow{P: hxpat.Runes(p), M: int(m), Src: src, Alpha: hxpat.Runes(string(alpha))}
+	obs, rx := hxpat.ObserveRegexp(p, m)
+	row.Obs = obs
+	if rx != nil {
+		row.Bits = hxpat.MatchBits(rx.MatchString, strs)
+	}
+	if m&EXT != 0 && m&ES != 0 {
+		r := hxpat.ViaMatcher(p, m, strs)
+		switch {
+		case strings.HasPrefix(r.Err, "PANIC"):
+			row.MObs = "P"
+		case r.Err != "":
+			row.MObs = "E"
+		default:
+			row.MObs = r.Bits
+		}
+	}
+	return row
+}
+
+func codeRows(p, src string, r *rand.Rand) {
+	for _, m := range codeModes {
+		hx.Emit(codeObserve(p, m, src))
+	}
+	for i := 0; i < 2; i++ {
+		hx.Emit(codeObserve(p, pattern.Mode(r.IntN(128)), src))
+	}
 }
 
 func main() {
@@ -53,9 +111,37 @@ func main() {
 			}
 		}
 	case "tokens":
-		r := hx.Rand(o.Seed, 17)
+		// a pinned list (fixed PRNG seed): the seed only rotates which eighth the quick tier visits
+		r := hx.Rand(17, 17)
 		for i := 0; i < o.N; i++ {
-			hx.Emit(searchObserve(hxpat.GenTokens(r, 5), "tokens"))
+			p := hxpat.GenTokens(r, 5)
+			if o.Tier != "thorough" && uint64(i%8) != o.Seed%8 {
+				continue
+			}
+			hx.Emit(searchObserve(p, "tokens"))
+		}
+	case "code":
+		// code leg: every pattern of length <= 2, a seed-rotated 1/64 of length 3, and -n token patterns
+		r := hx.Rand(o.Seed, 1700)
+		for l := 0; l <= 3; l++ {
+			np := hxpat.NumPatterns(l)
+			for i := 0; i < np; i++ {
+				if l == 2 && o.Tier != "thorough" && uint64(i%4) != o.Seed%4 {
+					continue
+				}
+				if l == 3 && (o.Tier != "thorough" && uint64(i%96) != o.Seed%96 || o.Tier == "thorough" && uint64(i%4) != o.Seed%4) {
+					continue
+				}
+				codeRows(hxpat.Pattern(l, i), "enum", r)
+			}
+		}
+		for i := 0; i < o.N; i++ {
+			codeRows(hxpat.GenTokens(r, 5), "tokens", r)
+		}
+	case "codelist":
+		r := hx.Rand(o.Seed, 1700)
+		for _, p := range o.Args {
+			codeRows(p, "list", r)
 		}
 	case "list":
 		for _, p := range o.Args {
